@@ -3,7 +3,14 @@
    Algebraic: for V = P1 + t (P2 - P1),  |V-c|^2 = (1-t)|P1-c|^2 + t|P2-c|^2 - t(1-t)|P2-P1|^2, so
    the chord value L = (1-t) d0 + t d1 satisfies  L^2 - d^2 = t(1-t)(e^2 - (d1-d0)^2) in [0, h^2/4]. *)
 From Coq Require Import Reals Lra Lia List Bool ZArith.
-From Sdfx Require Import Num.Ops Num.RInst Geo.Vec Geo.NormR Generated.MarchTables Render.MC Render.MS Render.Interp.
+From Sdfx Require Import Num.Ops.
+From Sdfx Require Import Num.RInst.
+From Sdfx Require Import Geo.Vec.
+From Sdfx Require Import Geo.NormR.
+From Sdfx Require Import Generated.MarchTables.
+From Sdfx Require Import Render.MC.
+From Sdfx Require Import Render.MS.
+From Sdfx Require Import Render.Interp.
 Open Scope R_scope.
 
 Lemma chord_gap (d0 d1 d e t R h ep : R) :
